@@ -607,6 +607,50 @@ def with_def_consequences(facts):
     return frozenset(out)
 
 
+def flag_consequences(fnode, facts):
+    """facts plus what a boolean flag stands for: `ok = <E0>` … `for t in <iter>: if <T>: ok = False; break` … and `ok` known true
+    afterwards means E0 held and T held for no element — added as the atoms of E0 and as truthy(all((not T for t in iter)))"""
+    out = set(facts)
+    for a in list(facts):
+        m = re.match(r"truthy\((\w+)\)$", a)
+        if not m:
+            continue
+        flag = m.group(1)
+        assigns = [n for n in walk_local(fnode) if isinstance(n, ast.Assign) and len(n.targets) == 1 and norm(n.targets[0]) == flag]
+        if len(assigns) < 2:
+            continue
+        inits = [n for n in assigns if not (isinstance(n.value, ast.Constant) and n.value.value is False)]
+        clears = [n for n in assigns if isinstance(n.value, ast.Constant) and n.value.value is False]
+        if len(inits) != 1 or not clears:
+            continue
+        ok = True
+        extra = set()
+        for c in clears:
+            test, loop = None, None
+            for p_ in parent_chain(c):
+                if isinstance(p_, ast.If) and test is None and any(c is s_ for s_ in p_.body):
+                    test = p_.test
+                if isinstance(p_, ast.For):
+                    loop = p_
+                    break
+                if isinstance(p_, (ast.FunctionDef, ast.While)):
+                    break
+            if test is None or loop is None:
+                ok = False
+                break
+            gen = "all((not %s for %s in %s))" % (norm(_alpha(test)), norm(loop.target), norm(loop.iter))
+            extra.add(atom("truthy", gen))
+        if not ok:
+            continue
+        e0 = inits[0].value
+        if not (isinstance(e0, ast.Constant) and e0.value is True):
+            alts = alts_of(e0, True)
+            if len(alts) == 1:
+                extra |= set(alts[0])
+        out |= extra
+    return frozenset(out)
+
+
 def expand_defs(text, facts, depth=3):
     """substitute single-assignment locals (def(name, expr) atoms) into a text"""
     defs = {}
